@@ -443,7 +443,7 @@ func selfTestChecker() error {
 	return nil
 }
 
-const ruleC07 = "concurrent: rapid draws a plan (start value biased to 0,1,65534,65535; 2-16 goroutines; 70k-400k operations so that the value wraps 1-6 times; RollOverCount read mix; Gosched pattern; GOMAXPROCS 2/4/16); every operation is recorded with invocation/response stamps from one atomic counter and the complete history is decided by an exact linearizability checker for the counter specification (greedy with exchange argument, self-tested on hand-made illegal histories), plus multiset-of-values check; half of the shards run under the Go race detector. wrapburst: plans that put 2-16 goroutines x 2-24 calls (Next alternating with RollOverCount) right around the 65535->0 wrap, each repeated for 600 (thorough 3000) trials on fresh sequencers, every trial's history decided by the same checker. sequential: fixed sequencers stepped through two wraps from boundary/drawn starts (thorough: all 65536 starts), RollOverCount = zeros issued after every call; NewRandomSequencer first value < 2^15, every thousandth one stepped through two wraps. viapacketizer: a fixed sequencer (start biased to the wrap) driven by a Packetizer through 1-12 Packetize/GeneratePadding calls of 1-8 packets: consecutive numbers on the packets, RollOverCount = zeros handed out after every call. randomconcurrent: 2-16 goroutines make the very first 1-100 calls each on one fresh random sequencer together (300 trials per plan, 40 under the race detector): values handed out are min..min+N-1 without duplicate or gap, increasing per goroutine, min < 2^15, RollOverCount 0. Non-trivial = history with overlapping operations of different goroutines and >=1 wrap, or a sweep that wraps; distinct = FNV-64 of the plan"
+const ruleC07 = "concurrent: rapid draws a plan (start value biased to 0,1,65534,65535; 2-16 goroutines; 70k-400k operations so that the value wraps 1-6 times; RollOverCount read mix; Gosched pattern; GOMAXPROCS 2/4/16); every operation is recorded with invocation/response stamps from one atomic counter and the complete history is decided by an exact linearizability checker for the counter specification (greedy with exchange argument, self-tested on hand-made illegal histories), plus multiset-of-values check; half of the shards run under the Go race detector. wrapburst: plans that put 2-16 goroutines x 2-24 calls (Next alternating with RollOverCount) right around the 65535->0 wrap, each repeated for 600 (thorough 3000) trials on fresh sequencers, every trial's history decided by the same checker. sequential: fixed sequencers stepped through two wraps from boundary/drawn starts (thorough: all 65536 starts), RollOverCount = zeros issued after every call; NewRandomSequencer first value < 2^15, every thousandth one stepped through two wraps. viapacketizer: a fixed sequencer (start biased to the wrap) driven by a Packetizer through 1-12 Packetize/GeneratePadding calls of 1-8 packets: consecutive numbers on the packets, RollOverCount = zeros handed out after every call. packetizerconcurrent: a Packetizer and 1-8 goroutines draw 50-400 values each from one fixed sequencer at the same time (60 trials per plan, 10 under the race detector): every value unique, consecutive from the start, RollOverCount = zeros. randomconcurrent: 2-16 goroutines make the very first 1-100 calls each on one fresh random sequencer together (300 trials per plan, 40 under the race detector): values handed out are min..min+N-1 without duplicate or gap, increasing per goroutine, min < 2^15, RollOverCount 0. Non-trivial = history with overlapping operations of different goroutines and >=1 wrap, or a sweep that wraps; distinct = FNV-64 of the plan"
 
 func TestC07(t *testing.T) {
 	r := begin(t, "C07", "exploration", ruleC07)
@@ -470,6 +470,11 @@ func TestC07(t *testing.T) {
 	subC07RandConc.rapidRun(r, n(6, 30), func(t *rapid.T) *RandConcCase {
 		return &RandConcCase{Goroutines: rapid.SampledFrom([]int{2, 3, 4, 8, 16}).Draw(t, "g"), Calls: rapid.SampledFrom([]int{1, 2, 3, 8, 100}).Draw(t, "calls"),
 			Trials: map[bool]int{true: 40, false: 300}[race], Procs: rapid.SampledFrom([]int{2, 4, 16}).Draw(t, "procs")}
+	})
+	// a Packetizer and direct callers sharing one sequencer (also under the race detector)
+	subC07PktzConc.rapidRun(r, n(4, 20), func(t *rapid.T) *PktzConcCase {
+		return &PktzConcCase{Start: uint16(biased(t, "start", 0, 65535, 0, 65000, 65400, 65535)), Callers: rapid.SampledFrom([]int{1, 2, 4, 8}).Draw(t, "callers"),
+			PerSide: rapid.SampledFrom([]int{50, 200, 400}).Draw(t, "perside"), Trials: map[bool]int{true: 10, false: 60}[race], Procs: rapid.SampledFrom([]int{2, 4, 16}).Draw(t, "procs")}
 	})
 	if race {
 		r.col.Note("this shard ran under the Go race detector")
@@ -680,6 +685,77 @@ var subC07Pktz = register("C07", "viapacketizer", func(r *run, c *PktzSeqCase) (
 		}
 		if roc := seq.RollOverCount(); roc != zeros {
 			return ci, failf("after call %d (%d packets, last sequence number %d) of a packetizer: RollOverCount %d, %d zeros were handed out (start %d)", i, n, next-1, roc, zeros, c.Start)
+		}
+	}
+
+	return ci, nil
+})
+
+// PktzConcCase: a Packetizer and other goroutines draw from ONE sequencer at the same time. Every value handed
+// out - on a packet or to a direct caller - is unique and the values are consecutive from the start.
+type PktzConcCase struct {
+	Start   uint16 `json:"start"`
+	Callers int    `json:"callers"` // goroutines calling NextSequenceNumber directly
+	PerSide int    `json:"per_side"`
+	Trials  int    `json:"trials"`
+	Procs   int    `json:"procs"`
+}
+
+var subC07PktzConc = register("C07", "packetizerconcurrent", func(r *run, c *PktzConcCase) (CaseInfo, error) {
+	var ci CaseInfo
+	ci.Nontrivial = true
+	old := runtime.GOMAXPROCS(c.Procs)
+	defer runtime.GOMAXPROCS(old)
+	total := c.PerSide * (c.Callers + 1)
+	for trial := 0; trial < c.Trials; trial++ {
+		seq := rtp.NewFixedSequencer(c.Start)
+		pk := rtp.NewPacketizer(112, 96, 1, &codecs.G711Payloader{}, seq, 8000)
+		got := make([][]uint16, c.Callers+1)
+		var ready, done sync.WaitGroup
+		start := make(chan struct{})
+		for g := 0; g <= c.Callers; g++ {
+			ready.Add(1)
+			done.Add(1)
+			go func(g int) {
+				defer done.Done()
+				vals := make([]uint16, 0, c.PerSide)
+				ready.Done()
+				<-start
+				if g == 0 {
+					for len(vals) < c.PerSide {
+						for _, p := range pk.Packetize(make([]byte, 100*mini(4, c.PerSide-len(vals))), 160) {
+							vals = append(vals, p.SequenceNumber)
+						}
+					}
+				} else {
+					for k := 0; k < c.PerSide; k++ {
+						vals = append(vals, seq.NextSequenceNumber())
+					}
+				}
+				got[g] = vals
+			}(g)
+		}
+		ready.Wait()
+		close(start)
+		done.Wait()
+		seen := make(map[uint16]int, total)
+		for _, vals := range got {
+			for _, v := range vals {
+				seen[v]++
+			}
+		}
+		zeros := uint64(0)
+		for i := 0; i < total; i++ {
+			v := c.Start + uint16(i)
+			if seen[v] != 1 {
+				return ci, failf("trial %d: a Packetizer and %d goroutines drew %d values each from one sequencer started at %d: value %d handed out %d times (%d distinct values for %d draws)", trial, c.Callers, c.PerSide, c.Start, v, seen[v], len(seen), total)
+			}
+			if v == 0 {
+				zeros++
+			}
+		}
+		if roc := seq.RollOverCount(); roc != zeros {
+			return ci, failf("trial %d: RollOverCount %d, %d zeros were handed out", trial, roc, zeros)
 		}
 	}
 
